@@ -1,7 +1,8 @@
 (* C33 — Each status change reaches exactly one listener, the most specific enabled one.
    Property file: statements, `exact`, pins, assumptions.
    Model: Sched/ListenerModel.v — one function per dispatch chain as coded
-   (communication_methods.rs:299-356, discovery_methods.rs:313-455, 1148-1300, 1689-1830, 2431-2456).
+   (communication_methods.rs:306-372, discovery_methods.rs:313-455, 1162-1434, 1779-2040, 2596-2627;
+   as of commits 8c56825, 1fc584d, 16b74b1).
      lcfg            one level: listener installed?, listener mask          en l k = mask enables k
      dispatch_X e g p   the calls (level, callback) the coded chain X makes for entity / publisher-or-
                      subscriber / participant configurations e g p
@@ -46,7 +47,16 @@ Theorem C33_inconsistent_topic_eq_spec :
     map (fun c => (match fst c with Group => Participant | w => w end, snd c)) (spec_calls KIT t no_l p).
 Proof. exact inconsistent_topic_is_rule. Qed.
 
-(* the same seven tables once more as an exhaustive enumeration of the 2^6 = 64 combinations
+(* a lost match (the matched endpoint was deleted) runs the matched-status chain as well *)
+Theorem C33_publication_unmatched_eq_spec :
+  forall w b p, dispatch_publication_unmatched w b p = spec_calls KPM w b p.
+Proof. exact publication_unmatched_eq_spec. Qed.
+
+Theorem C33_subscription_unmatched_eq_spec :
+  forall r s p, dispatch_subscription_unmatched r s p = spec_calls KSM r s p.
+Proof. exact subscription_unmatched_eq_spec. Qed.
+
+(* the same nine tables once more as an exhaustive enumeration of the 2^6 = 64 combinations
    (listener installed?, status enabled?) x three levels, evaluated by computation *)
 Theorem C33_decision_tables_64 :
   table3 KSR dispatch_sample_rejected = true /\
@@ -55,8 +65,14 @@ Theorem C33_decision_tables_64 :
   table3 KRIQ dispatch_requested_incompatible_qos = true /\
   table3 KODM dispatch_offered_deadline_missed = true /\
   table3 KPM dispatch_publication_matched = true /\
-  table3 KOIQ dispatch_offered_incompatible_qos = true.
+  table3 KOIQ dispatch_offered_incompatible_qos = true /\
+  table3 KPM dispatch_publication_unmatched = true /\
+  table3 KSM dispatch_subscription_unmatched = true.
 Proof. exact decision_tables. Qed.
+
+(* and the new-data table over its 2^7 = 128 combinations *)
+Theorem C33_decision_table_data_128 : table_data = true.
+Proof. exact decision_table_data. Qed.
 
 (* ---- what the rule says, declaratively: level w gets callback k iff w's mask enables k, w has a
    listener, and no more specific level's mask enables k *)
@@ -77,44 +93,24 @@ Theorem C33_no_target_iff_no_mask_enables :
   forall k e g p, spec_target k e g p = None <-> (en e k = false /\ en g k = false /\ en p k = false).
 Proof. exact spec_target_none_iff. Qed.
 
-(* ---- new data.  Outside the known class the coded chain is the rule ... *)
-Theorem C33_data_eq_spec_unless_fallback :
-  forall r s p, needs_da_fallback r s p = false -> dispatch_data r s p = spec_data r s p.
-Proof. exact data_eq_spec_unless_fallback. Qed.
+(* ---- new data: data-on-readers on the subscriber when enabled there, otherwise data-available
+   by the rule (reader, subscriber, participant) *)
+Theorem C33_data_eq_spec : forall r s p, dispatch_data r s p = spec_data r s p.
+Proof. exact data_eq_spec. Qed.
 
-(* ... inside it nobody is called although the subscriber or the participant is entitled
-   (known finding C33-data-available-no-fallback) *)
-Theorem C33_data_fallback_missing :
-  forall r s p, needs_da_fallback r s p = true ->
-    dispatch_data r s p = [] /\
-    exists w, (w = Group \/ w = Participant) /\ spec_target KDA r s p = Some w /\
-              spec_data r s p = send (lv r s p w) w KDA.
-Proof. exact data_fallback_missing. Qed.
-
-Theorem C33_data_eq_spec_refuted : exists r s p, dispatch_data r s p <> spec_data r s p.
-Proof. exact data_eq_spec_refuted. Qed.
-
-(* ---- un-match (match count goes down): the code has no chain (known finding C33-unmatch-no-listener) *)
-Theorem C33_unmatched_refuted :
-  exists w b p, dispatch_publication_unmatched w b p <> spec_calls KPM w b p.
-Proof. exact unmatched_refuted. Qed.
-
-(* ---- histories: every event outside the two classes goes to exactly the listener the rule names *)
-Theorem C33_history_eq_spec_unless_known :
-  forall c es, existsb (ev_known c) es = false -> run_events c es = spec_events c es.
+(* ---- histories: every event of every history goes to exactly the listener the rule names *)
+Theorem C33_history_eq_spec : forall c es, run_events c es = spec_events c es.
 Proof. exact run_events_eq_spec. Qed.
 
 (* ... also when listeners and masks are replaced (set_listener) between the events *)
-Theorem C33_history_with_reconfiguration_eq_spec :
-  forall h, existsb (fun we => ev_known (fst we) (snd we)) h = false -> run_history h = spec_history h.
+Theorem C33_history_with_reconfiguration_eq_spec : forall h, run_history h = spec_history h.
 Proof. exact run_history_eq_spec. Qed.
 
 Theorem C33_history_with_reconfiguration_calls_bounded :
   forall h, (length (run_history h) <= length h)%nat.
 Proof. exact run_history_length. Qed.
 
-(* ---- exactly one or zero listener per status change, for every event of every history, known
-   class or not *)
+(* ---- exactly one or zero listener per status change, for every event of every history *)
 Theorem C33_at_most_one_listener_per_event :
   forall c e, (length (dispatch_ev c e) <= 1)%nat.
 Proof. exact dispatch_ev_at_most_one. Qed.
@@ -134,12 +130,15 @@ Theorem C33_swallowed_differs :
     spec_calls k e g p = [] /\ exists w, spec_calls_strict k e g p = [(w, k)].
 Proof. exact swallowed_differs. Qed.
 
-(* non-vacuity: subscriber-level delivery, a swallowed configuration, a fallback configuration *)
+(* non-vacuity: subscriber-level delivery, a swallowed configuration, the data-available fallback
+   (regression witness of 8c56825), the un-match callback (regression witness of 16b74b1) *)
 Example C33_nonvacuous :
   dispatch_sample_rejected (mkL true []) (mkL true [KSR]) (mkL true [KSR]) = [(Group, KSR)] /\
   swallowed KSR (mkL false [KSR]) (mkL true [KSR]) (mkL false []) = true /\
-  needs_da_fallback (mkL true []) (mkL true [KDA]) (mkL true []) = true /\
-  dispatch_data (mkL true [KDA]) (mkL true [KDOR]) (mkL true []) = [(Group, KDOR)].
+  dispatch_data (mkL true []) (mkL true [KDA]) (mkL true []) = [(Group, KDA)] /\
+  dispatch_data (mkL true []) (mkL true []) (mkL true [KDA]) = [(Participant, KDA)] /\
+  dispatch_data (mkL true [KDA]) (mkL true [KDOR]) (mkL true []) = [(Group, KDOR)] /\
+  dispatch_publication_unmatched (mkL true [KPM]) (mkL true []) (mkL true []) = [(Entity, KPM)].
 Proof. vm_compute. repeat split. Qed.
 
 Print Assumptions C33_sample_rejected_eq_spec.
@@ -150,18 +149,18 @@ Print Assumptions C33_offered_deadline_missed_eq_spec.
 Print Assumptions C33_publication_matched_eq_spec.
 Print Assumptions C33_offered_incompatible_qos_eq_spec.
 Print Assumptions C33_inconsistent_topic_eq_spec.
+Print Assumptions C33_publication_unmatched_eq_spec.
+Print Assumptions C33_subscription_unmatched_eq_spec.
 Print Assumptions C33_decision_tables_64.
+Print Assumptions C33_decision_table_data_128.
 Print Assumptions C33_rule_characterisation.
 Print Assumptions C33_rule_none_iff_no_mask_or_nil_listener.
 Print Assumptions C33_no_target_iff_no_mask_enables.
-Print Assumptions C33_data_eq_spec_unless_fallback.
-Print Assumptions C33_data_fallback_missing.
-Print Assumptions C33_data_eq_spec_refuted.
-Print Assumptions C33_unmatched_refuted.
-Print Assumptions C33_history_eq_spec_unless_known.
+Print Assumptions C33_data_eq_spec.
+Print Assumptions C33_history_eq_spec.
+Print Assumptions C33_history_with_reconfiguration_eq_spec.
+Print Assumptions C33_history_with_reconfiguration_calls_bounded.
 Print Assumptions C33_at_most_one_listener_per_event.
 Print Assumptions C33_history_calls_bounded.
 Print Assumptions C33_strict_reading_eq_unless_swallowed.
 Print Assumptions C33_swallowed_differs.
-Print Assumptions C33_history_with_reconfiguration_eq_spec.
-Print Assumptions C33_history_with_reconfiguration_calls_bounded.
